@@ -18,6 +18,7 @@ import (
 	"github.com/protolambda/zrnt/eth2/beacon/phase0"
 	"github.com/protolambda/ztyp/codec"
 	"github.com/protolambda/ztyp/tree"
+	"github.com/protolambda/ztyp/view"
 	"gopkg.in/yaml.v3"
 )
 
@@ -338,6 +339,26 @@ func (s *sim) checkBlockCodec(b *blockRec) {
 		s.viol("C04", "block/yaml-roundtrip", fmt.Sprintf("%T at slot %d: YAML round trip fails or changes the value: %v", b.signed, b.slot, err))
 		return
 	}
+	// the tree-view type of the fork's signed block agrees with the struct form
+	var bt view.TypeDef
+	switch b.signed.(type) {
+	case *phase0.SignedBeaconBlock:
+		bt = phase0.SignedBeaconBlockType(spec)
+	case *altair.SignedBeaconBlock:
+		bt = altair.SignedBeaconBlockType(spec)
+	case *bellatrix.SignedBeaconBlock:
+		bt = bellatrix.SignedBeaconBlockType(spec)
+	case *capella.SignedBeaconBlock:
+		bt = capella.SignedBeaconBlockType(spec)
+	case *deneb.SignedBeaconBlock:
+		bt = deneb.SignedBeaconBlockType(spec)
+	}
+	if bt != nil {
+		s.viewAgrees("block", bt, b.bytes, b.signed.HashTreeRoot(spec, tree.GetHashFn()), false)
+		if s.stop {
+			return
+		}
+	}
 	// C05 for what rides the seam: root from the struct == root of the decoded copy == envelope root
 	hdrRoot := b.env.BeaconBlockHeader.HashTreeRoot(tree.GetHashFn())
 	if hdrRoot != b.root {
@@ -362,9 +383,37 @@ func serPlain(v sszPlain) []byte {
 	return buf.Bytes()
 }
 
+// viewAgrees (C05/C04): the tree-view form of the same bytes has the same root, the same
+// encoding and the same fixed/variable classification as the struct form.
+func (s *sim) viewAgrees(what string, vt view.TypeDef, b []byte, structRoot common.Root, fixedSize bool) {
+	var v view.View
+	var err error
+	if p := guard(func() { v, err = vt.Deserialize(codec.NewDecodingReader(bytes.NewReader(b), uint64(len(b)))) }); p != nil {
+		s.viol("C05", what+"/view-decode-panic/"+p.frame, p.val)
+		return
+	}
+	s.res.Stat("view_vs_struct_checks", 1)
+	if err != nil {
+		s.viol("C05", what+"/view-refuses-struct-bytes", fmt.Sprintf("the tree-view type %s does not decode the bytes the struct form wrote: %v", vt.String(), err))
+		return
+	}
+	if r := v.HashTreeRoot(tree.GetHashFn()); r != structRoot {
+		s.viol("C05", what+"/struct-root-vs-view-root", fmt.Sprintf("struct form %s, tree view %s (%s)", structRoot, r, vt.String()))
+		return
+	}
+	var buf bytes.Buffer
+	if err := v.Serialize(codec.NewEncodingWriter(&buf)); err != nil || !bytes.Equal(buf.Bytes(), b) {
+		s.viol("C04", what+"/view-bytes-vs-struct-bytes", fmt.Sprintf("the tree view re-encodes to %d bytes, the struct form wrote %d (err %v)", buf.Len(), len(b), err))
+		return
+	}
+	if vt.IsFixedByteLength() != fixedSize || (fixedSize && vt.TypeByteLength() != uint64(len(b))) {
+		s.viol("C04", what+"/view-type-length", fmt.Sprintf("%s: IsFixedByteLength=%v TypeByteLength=%d for a %d-byte value (schema fixed-size=%v)", vt.String(), vt.IsFixedByteLength(), vt.TypeByteLength(), len(b), fixedSize))
+	}
+}
+
 // wireCheck: a gossip message crosses the wire (C04/C05 at the gossip seam). v is the message,
 // fresh() allocates an empty one of the same type, fixedSize says what the SSZ schema says.
-func (s *sim) wireCheck(name string, v sszPlain, fresh func() sszPlain, fixedSize bool) {
+func (s *sim) wireCheck(name string, v sszPlain, fresh func() sszPlain, fixedSize bool, vt view.TypeDef) {
 	if s.stop {
 		return
 	}
@@ -394,6 +443,12 @@ func (s *sim) wireCheck(name string, v sszPlain, fresh func() sszPlain, fixedSiz
 	if d.HashTreeRoot(tree.GetHashFn()) != v.HashTreeRoot(tree.GetHashFn()) {
 		s.viol("C05", "gossip/"+name+"/root-after-roundtrip", "the decoded copy has another hash-tree-root than the value that was sent")
 		return
+	}
+	if vt != nil {
+		s.viewAgrees("gossip/"+name, vt, b, v.HashTreeRoot(tree.GetHashFn()), fixedSize)
+		if s.stop {
+			return
+		}
 	}
 	d2 := fresh()
 	if err := d2.Deserialize(codec.NewDecodingReader(&shortReader{r: bytes.NewReader(b), n: 1 + s.frng.Intn(5), errAt: -1}, uint64(len(b)))); err != nil || !bytes.Equal(serPlain(d2), b) {
